@@ -71,3 +71,12 @@ Fixpoint tagiter_nth (p : profile) (h : hkind) (m : mem) (b blen nxt : N) (k : n
   | Val (Some r, nxt') => match k with O => Val (Some r, nxt') | S k' => tagiter_nth p h m b blen nxt' k' end
   | x => x
   end.
+
+(* Iterator::nth on an iterator in any state (also one a caught panic left behind): next() is called until the k-th item,
+   the first None or the first panic; the outcome and the offset the iterator is left with *)
+Fixpoint tagiter_nth_step (p : profile) (h : hkind) (m : mem) (b blen nxt : N) (k : nat) : res (option dref) * N :=
+  let '(x, n') := tagiter_step p h m b blen nxt in
+  match x with
+  | Val (Some t) => match k with O => (x, n') | S k' => tagiter_nth_step p h m b blen n' k' end
+  | _ => (x, n')
+  end.
